@@ -12,7 +12,7 @@ func init() {
 	reg(&core.Property{
 		ID: "C02", Level: "exploration",
 		Batches: []core.Batch{
-			{Name: "groups", Engine: store.RootHashEngine{}, Quick: 25000, Thorough: 800000,
+			{Name: "groups", Engine: store.RootHashEngine{}, Quick: 50000, Thorough: 800000,
 				Rule: "a run is non-trivial when it has at least two histories, a non-empty target and at least two generated operations"},
 		},
 		Real:        storeReal,
@@ -22,7 +22,7 @@ func init() {
 	reg(&core.Property{
 		ID: "C06", Level: "exploration",
 		Batches: []core.Batch{
-			{Name: "histories", Engine: store.NodeDBEngine{Prop: "C06"}, Quick: 6000, Thorough: 150000,
+			{Name: "histories", Engine: store.NodeDBEngine{Prop: "C06"}, Quick: 10000, Thorough: 150000,
 				Rule: "a run is non-trivial when the history has at least four operations including a commit and a finalize"},
 		},
 		Real:        []string{"storage/mkvs/db/badger and pathbadger on tmpfs directories (Commit/Finalize/Prune/reopen), mkvs trees, proofs"},
@@ -44,7 +44,7 @@ func init() {
 	reg(&core.Property{
 		ID: "C12", Level: "exploration",
 		Batches: []core.Batch{
-			{Name: "create-restore", Engine: store.CheckpointEngine{}, Quick: 2500, Thorough: 60000,
+			{Name: "create-restore", Engine: store.CheckpointEngine{}, Quick: 5000, Thorough: 60000,
 				Rule: "a run is non-trivial when the tree is non-empty and at least one chunk was created and restored"},
 		},
 		Real:        []string{"storage/mkvs/checkpoint file creator, sequential and parallel chunker (real goroutines), restorer, chunk proof verification", "badger and pathbadger multipart insert on tmpfs directories"},
@@ -66,7 +66,7 @@ func init() {
 	reg(&core.Property{
 		ID: "C04", Level: "exploration",
 		Batches: []core.Batch{
-			{Name: "byzantine", Engine: store.ProofEngine{}, Quick: 60000, Thorough: 2000000,
+			{Name: "byzantine", Engine: store.ProofEngine{}, Quick: 200000, Thorough: 2000000,
 				Rule: "a run is non-trivial when at least one honest answer was verified and at least one response was actually changed by a mutation operator"},
 		},
 		Real:        []string{"storage/mkvs proof builders (SyncGet/SyncGetPrefixes/SyncIterate), syncer.ProofVerifier, cache.remoteSync + MergeVerifiedSubtree, remote-backed tree lookup/iteration/prefetch"},
